@@ -24,6 +24,9 @@ for c in $CHECKS; do for s in 0 1; do
   L=$(VERIF_SEED=$s ./check $c 2>&1 | grep -e "^\[C" -e VIOLATION | tr '\n' ' ' | cut -c1-400); RES="$RES\n$c seed=$s: $L"; done; done
 git -C /repo checkout -- .
 git -C /repo status --short | head -3
+# the generated Lean tables were re-derived from the patched tree by the checks: derive them again from the clean tree
+/venv/bin/python harness/translate/iocalls.py /repo >/dev/null; PYTHONPATH=/repo /venv/bin/python harness/translate/setters.py /repo >/dev/null
+PYTHONPATH=/repo /venv/bin/python harness/translate/py2lean.py /repo >/dev/null 2>&1
 echo -e "$RES"
 python3 - "$P" "$ID" "$WITH" "$WITHOUT" "$SUITE" "$RES" <<'PY'
 import json,sys
